@@ -131,14 +131,14 @@ def _probes(u):
         for pth in _fill(r):
             if pth not in base:
                 base.append(pth)
-    out = []
+    out = ['/', '/zz', '/a']
+    for b in base:                       # every rule-derived path first, then the perturbations
+        if b not in out:
+            out.append(b)
     for b in base:
-        for q in (b, b + '/v', b + 'c', b[:-1], b + '/'):
+        for q in (b + '/v', b + 'c', b[:-1], b + '/'):
             if q.startswith('/') and q not in out:
                 out.append(q)
-    for q in ('/', '/zz', '/a', '/a/b/b'):
-        if q not in out:
-            out.append(q)
     return out[:40]
 
 
@@ -648,17 +648,14 @@ def classify(case, det, clause):
                 model.apply(op)
         extra = {_hk_index(h) for h in det.get('hook_extra') or []}
         missing = {_hk_index(h) for h in det.get('hook_missing') or []}
-        if clause in ('K1.resolve', 'K5.hooks_fired'):
-            if extra and not missing and extra <= stale:
-                return 'D13a'
-            if missing and not extra and missing <= lost:
-                return 'D13b'
+        if clause in ('K1.resolve', 'K5.hooks_fired') and (extra or missing) and extra <= stale and missing <= lost:
+            return 'D13a+D13b' if (extra and missing) else ('D13a' if extra else 'D13b')
         if clause == 'K4.hook_index' and det.get('edited') is None and det.get('expected'):
             if _hk_index(det['expected']) in stale:
                 return 'D13a'      # the stale slot is re-used in place, so the index is not refreshed
-        if clause == 'K0.outcome' and 'refused (filter)' in str(det.get('expected')) and det.get('observed') == 'accepted':
-            op = det.get('op')
-            rule = model.rules[op[1]] if op[0] == 'add' else model.hrules[op[1]]
+        if lpred == ('refuse', 'filter') and last[0] in ('add', 'hook') and (
+                (clause == 'K0.outcome' and det.get('observed') == 'accepted') or clause in ('K1.resolve', 'K2.by_name', 'K3.by_rule')):
+            rule = model.rules[last[1]] if last[0] == 'add' else model.hrules[last[1]]
             clash = [hi for hi in model.hooks if S.filter_conflict(rule, model.hrules[hi])]
             if clash and set(clash) <= lost and not any(S.filter_conflict(rule, model.rules[v[0]]) for v in model.routes.values()):
                 return 'D13b'      # the only thing that forbids the rule is a hook whose node was pruned away
@@ -667,7 +664,7 @@ def classify(case, det, clause):
             shp = S.shape(model.rules[last[1]])
             if any(S.shape(model.rules[ri]) == shp for ri in lroutes.values()):
                 return 'N3'
-        if last[0] == 'add' and lpred == ('refuse', 'name') and clause in ('K1.resolve', 'K3.by_rule'):
+        if last[0] == 'add' and lpred == ('refuse', 'name') and clause in ('K1.resolve', 'K2.by_name', 'K3.by_rule'):
             return 'N1'
         if clause == 'K2.by_name':
             m2 = Model(case)
@@ -710,13 +707,13 @@ def _removal_touches(model, op, routes, names, hi):
 
 FINDINGS = {
     # remove(rule) of an unregistered rule removes the registered route that has the same shape but other filters
-    'C11-N3-remove-by-rule-ignores-filters': lambda case, f: f.get('class') == 'N3',
+    'C11-N3-remove-by-rule-ignores-filters': lambda case, f: 'N3' in str(f.get('class')).split('+'),
     # remove_route_hook on a node that carries no route data (and is kept alive by children) leaves the hook in the tree
-    'C11-D13a-removed-hook-on-routeless-node-still-fires': lambda case, f: f.get('class') == 'D13a',
+    'C11-D13a-removed-hook-on-routeless-node-still-fires': lambda case, f: 'D13a' in str(f.get('class')).split('+'),
     # removing a route / hook prunes nodes that still carry a hook: the hook is lost while router.hooks keeps it
-    'C11-D13b-hook-lost-by-pruning-on-removal': lambda case, f: f.get('class') == 'D13b',
+    'C11-D13b-hook-lost-by-pruning-on-removal': lambda case, f: 'D13b' in str(f.get('class')).split('+'),
     # a registration refused because its name belongs to another route has already created the route / method
-    'C11-N1-add-refused-for-name-clash-leaves-route': lambda case, f: f.get('class') == 'N1',
+    'C11-N1-add-refused-for-name-clash-leaves-route': lambda case, f: 'N1' in str(f.get('class')).split('+'),
     # remove(name=) of a route known under two names leaves the other name pointing at the removed route
-    'C11-N2-remove-by-name-leaves-other-name': lambda case, f: f.get('class') == 'N2',
+    'C11-N2-remove-by-name-leaves-other-name': lambda case, f: 'N2' in str(f.get('class')).split('+'),
 }
